@@ -216,7 +216,7 @@ func parseRaceLogs(dir string) []raceReport {
 }
 
 func checkC13(c *core.Ctx) []core.Floor {
-	c.Rule = "one session goroutine against the REAL 100 ms flush goroutine. Each pass executes every statement kind {CREATE TABLE, INSERT single, INSERT multi-row (splitting; also 300 rows; a table grown to 1250 rows in five statements, through the split of its internal root), UPDATE and DELETE (also over 300 rows), SELECT scan, SELECT join} with placements {idle gap > 1 tick before and after, park of > 2 ticks at the statement's 2nd page change, park of > 2 ticks inside the log append, SELECT: park at a cache miss}, on fresh pages and after a reload (cold cache); eight tables are created in one database, each CREATE held open, so that the CREATE whose catalog row splits the catalog root is among them. (a) -race build: handlers only sleep on the session goroutine and add no synchronisation; every data-race report with mkdb frames is a violation (happens-before reasoning, independent of the observed timing). (b) plain build (once as is, once with every page write of a flush slowed down to 15 ms by a sleep in the write hook): every hook event is logged with its goroutine id; offline checker: no page or header write by ANY goroutine between a statement's first page change and the completion of its log append (CREATE TABLE: its last page change); the same checker runs over passes with a page cache of 10-24 pages and statements that dirty hundreds of pages (the statement may be refused with 'cache is full', but must not push its own half-done pages to the data file). Distinct = (pass, statement, placement); non-trivial = the statement was actually held open (parked) across more than two timer periods."
+	c.Rule = "one session goroutine against the REAL 100 ms flush goroutine. Each pass executes every statement kind {CREATE TABLE, INSERT single, INSERT multi-row (splitting; also 300 rows; a table grown to 1250 rows in five statements, through the split of its internal root), UPDATE and DELETE (also over 300 rows), SELECT scan, SELECT join} with placements {idle gap > 1 tick before and after, park of > 2 ticks at the statement's 2nd page change, park of > 2 ticks inside the log append, SELECT: park at a cache miss}, on fresh pages and after a reload (cold cache); eight tables are created in one database, each CREATE held open, so that the CREATE whose catalog row splits the catalog root is among them. (a) -race build: handlers only sleep on the session goroutine and add no synchronisation; every data-race report with mkdb frames is a violation (happens-before reasoning, independent of the observed timing). (b) plain build (once as is, once with every page write of a flush slowed down to 15 ms by a sleep in the write hook): every hook event is logged with its goroutine id; offline checker: no page or header write by ANY goroutine between a statement's first page change and the completion of its log append (CREATE TABLE: its last page change); the same checker - and the race build - runs over passes with a page cache of 10-24 pages and statements that dirty hundreds of pages (the statement may be refused with 'cache is full', but must not push its own half-done pages to the data file). Distinct = (pass, statement, placement); non-trivial = the statement was actually held open (parked) across more than two timer periods."
 	c.Assume = []string{"a park of 230-400 ms spans at least two 100 ms ticks", "handlers of the race build run on the session goroutine only and share nothing with the flusher"}
 	passes := 2
 	if !core.Quick(c) {
@@ -248,8 +248,14 @@ func checkC13(c *core.Ctx) []core.Floor {
 			runC13Log(c, plain, dir, sc, pass, j.pass)
 		}
 	})
-	core.ParallelFor(passes*2, c.Workers, func(i int) { runC13Saturated(c, plain, i) })
-	fl := []core.Floor{{Key: "saturated_cache_runs", Min: int64(passes)}, {Key: "race_build_runs", Min: int64(passes)}, {Key: "log_build_runs", Min: int64(passes)}, {Key: "foreign_flushes_observed", Min: 20}, {Key: "statement_windows_checked", Min: 20}}
+	core.ParallelFor(passes*3, c.Workers, func(i int) {
+		if i%3 == 2 {
+			runC13Saturated(c, raceDrv, i, true)
+		} else {
+			runC13Saturated(c, plain, i, false)
+		}
+	})
+	fl := []core.Floor{{Key: "saturated_cache_runs", Min: int64(passes)}, {Key: "saturated_cache_runs_race_build", Min: int64(passes)}, {Key: "race_build_runs", Min: int64(passes)}, {Key: "log_build_runs", Min: int64(passes)}, {Key: "foreign_flushes_observed", Min: 20}, {Key: "statement_windows_checked", Min: 20}}
 	for _, cell := range []string{"create_dirty2", "insert_wal", "insert_multi_dirty2", "insert_multi_wal", "update_dirty2", "update_wal", "delete_dirty2", "delete_wal", "select_miss", "join_miss"} {
 		fl = append(fl, core.Floor{Key: "parked_log_" + cell, Min: 1}, core.Floor{Key: "parked_race_" + cell, Min: 1})
 	}
@@ -306,6 +312,10 @@ func runC13Race(c *core.Ctx, drv, dir string, sc script, pass []c13Stmt, passNo 
 	if !c13Outcome(c, "race", sc, out, pass, passNo) {
 		return
 	}
+	c13RaceReports(c, dir, passNo, "race build, real ticker, statements parked with sleeps only")
+}
+
+func c13RaceReports(c *core.Ctx, dir string, passNo int, how string) {
 	reps := parseRaceLogs(dir)
 	c.Count("race_reports", int64(len(reps)))
 	for _, rp := range reps {
@@ -322,7 +332,7 @@ func runC13Race(c *core.Ctx, drv, dir string, sc script, pass []c13Stmt, passNo 
 			continue
 		}
 		c.Violation("C13:data-race:"+rp.a+"|"+rp.b, fmt.Sprintf("the race detector reports unsynchronised access between %s and %s (innermost %s)", rp.a, rp.b, rp.inner),
-			map[string]interface{}{"pass": passNo, "report": clip(rp.text, 4000), "how": "race build, real ticker, statements parked with sleeps only"})
+			map[string]interface{}{"pass": passNo, "report": clip(rp.text, 4000), "how": how})
 	}
 }
 
@@ -422,14 +432,18 @@ func c13CheckWindows(c *core.Ctx, events []proto.Event, sess int64, byStmt map[i
 // runC13Saturated: statements whose dirty set exceeds a small page cache. The
 // statement may be refused ("cache is full"), but whatever it does it must not
 // write pages of a half-done, unlogged statement to the data file.
-func runC13Saturated(c *core.Ctx, drv string, passNo int) {
+func runC13Saturated(c *core.Ctx, drv string, passNo int, race bool) {
 	dir := c.CaseDir("c13s")
 	defer removeAll(dir)
 	r := core.NewRand(core.SubSeed(c.Seed, "C13S", passNo))
 	var s script
 	s.cfg(false, r.Range(10, 24)) // timer on, a cache of 10-24 pages
 	s.k("init")
-	s.add(proto.Op{K: "c13setup", S: "log"})
+	mode := "log"
+	if race {
+		mode = "race"
+	}
+	s.add(proto.Op{K: "c13setup", S: mode})
 	s.sql("CREATE DATABASE d1")
 	s.sql("USE d1")
 	s.sql("CREATE TABLE a (k INT, g INT, s VARCHAR(40))")
@@ -457,8 +471,20 @@ func runC13Saturated(c *core.Ctx, drv string, passNo int) {
 	s.add(proto.Op{K: "sleep", N: 150})
 	s.k("close")
 	ev := s.k("c13events")
-	out := core.RunScript(drv, dir, s.ops, 120*time.Second)
-	c.Count("saturated_cache_runs", 1)
+	var env []string
+	if race {
+		env = append(env, "GORACE=halt_on_error=0 log_path="+filepath.Join(dir, "race"))
+	}
+	out := core.RunScript(drv, dir, s.ops, 300*time.Second, env...)
+	if race {
+		c.Count("saturated_cache_runs_race_build", 1)
+	} else {
+		c.Count("saturated_cache_runs", 1)
+	}
+	if race && out.Died && !out.TimedOut && strings.Contains(out.Stderr, "DATA RACE") {
+		c13RaceReports(c, dir, 1000+passNo, "race build, real ticker, page cache of 10-24 pages")
+		return
+	}
 	if out.Died || len(out.Res) != len(s.ops) {
 		if out.TimedOut {
 			c.Inconclusive("watchdog", "C13 saturated-cache pass exceeded the watchdog")
@@ -477,6 +503,10 @@ func runC13Saturated(c *core.Ctx, drv string, passNo int) {
 			c.Count("saturated_cache_statements_accepted", 1)
 		}
 	}
+	if race {
+		c13RaceReports(c, dir, 1000+passNo, "race build, real ticker, page cache of 10-24 pages")
+		return
+	}
 	c13CheckWindows(c, out.Res[ev].Events, out.Res[ev].N, byStmt, 1000+passNo)
 }
 
@@ -484,7 +514,8 @@ func runC13Saturated(c *core.Ctx, drv string, passNo int) {
 // kinds the property names.
 func c13InScope(report string) bool {
 	for _, f := range []string{"engine.EvaluateCreateTable", "engine.EvaluateInsert", "engine.EvaluateUpdate", "engine.EvaluateDelete", "engine.EvaluateSelect"} {
-		if strings.Contains(report, "github.com/mk6i/mkdb/"+f+"(") {
+		// also the statement's deferred calls (EvaluateInsert.deferwrap1) and closures (EvaluateSelect.func1)
+		if strings.Contains(report, "github.com/mk6i/mkdb/"+f+"(") || strings.Contains(report, "github.com/mk6i/mkdb/"+f+".") {
 			return true
 		}
 	}
